@@ -144,13 +144,14 @@ def lean_sources_of(modules: List[str]) -> List[Path]:
     return sorted(seen.values())
 
 
-def audit_axioms(prop_module: str, names: List[str], timeout=1200) -> Dict[str, Any]:
+def audit_axioms(prop_module, names: List[str], timeout=1200) -> Dict[str, Any]:
     """#print axioms for each theorem; returns {name: [axioms]} or raises."""
     if not names:
         return {}
-    tmp = LEAN_DIR / '.lake' / f'audit_{prop_module.split(".")[-1]}_{os.getpid()}.lean'
+    mods = [prop_module] if isinstance(prop_module, str) else list(prop_module)
+    tmp = LEAN_DIR / '.lake' / f'audit_{mods[0].split(".")[-1]}_{os.getpid()}.lean'
     tmp.parent.mkdir(exist_ok=True)
-    body = f'import {prop_module}\n' + ''.join(f'#print axioms {n}\n' for n in names)
+    body = ''.join(f'import {m}\n' for m in mods) + ''.join(f'#print axioms {n}\n' for n in names)
     tmp.write_text(body)
     try:
         rc, out, err = run(['lake', 'env', 'lean', str(tmp)], cwd=LEAN_DIR, timeout=timeout)
